@@ -2,6 +2,7 @@ import QRV.Model.Sym
 import QRV.Spec.Codec
 import QRV.Spec.Tables
 import QRV.Lemmas.KanjiFinite
+import QRV.Gen.RMQR
 /-
 Validity of a symbol description, written from the standards (ISO/IEC 18004 7.3-7.4, Tables 2, 3,
 7-9; ISO/IEC 23941): the predicate the encoders are required to accept exactly (C08) and under
@@ -66,6 +67,72 @@ structure Valid (q : QRCode) : Prop where
   fits : (q.segments.map fun s => segBits s q.version.toNat).sum ≤ 8 * Tables.dataCodewords q.version.toNat q.level.toNat
 
 end QR
+
+namespace Micro
+
+/-- mode indicator value = kind (numeric 0, alphanumeric 1, byte 2, kanji 3) -/
+def kindOf (mode : Nat) : Option Nat := if mode < 4 then some mode else none
+
+/-- character count indicator width, 18004 Table 3 (M1-M4); `none` = mode not available -/
+def countBits (kind v : Nat) : Option Nat :=
+  match kind, v with
+  | 0, 1 => some 3 | 0, 2 => some 4 | 0, 3 => some 5 | 0, 4 => some 6
+  | 1, 2 => some 3 | 1, 3 => some 4 | 1, 4 => some 5
+  | 2, 3 => some 4 | 2, 4 => some 5
+  | 3, 3 => some 3 | 3, 4 => some 4
+  | _, _ => none
+
+/-- mode indicator width: M1 0, M2 1, M3 2, M4 3 -/
+def modeBits (v : Nat) : Nat := v - 1
+
+def segBits (s : Segment) (v : Nat) : Nat :=
+  match kindOf s.mode with
+  | some k => match countBits k v with
+    | some cb => modeBits v + cb + bodyBits k (count k s.data)
+    | none => 0
+  | none => 0
+
+/-- data bits of a (version, level indicator) pair, `none` when the pair does not exist (18004 Table 9) -/
+def dataBits (v l : Nat) : Option Nat := (Tables.micro.lookup (v, l)).map fun r => r.2.2.2.1
+
+structure Valid (q : QRCode) : Prop where
+  version : 1 ≤ q.version ∧ q.version ≤ 4
+  level : 0 ≤ q.level
+  pair : (dataBits q.version.toNat q.level.toNat).isSome
+  mask : -1 ≤ q.mask ∧ q.mask ≤ 3
+  segments : ∀ s ∈ q.segments, ∃ k cb, kindOf s.mode = some k ∧ countBits k q.version.toNat = some cb ∧
+    ValidData k s.data ∧ count k s.data < 2 ^ cb
+  fits : (q.segments.map fun s => segBits s q.version.toNat).sum ≤ (dataBits q.version.toNat q.level.toNat).getD 0
+
+end Micro
+
+namespace RMQR
+
+/-- mode indicator (3 bits): 1 numeric, 2 alphanumeric, 3 byte, 4 kanji -/
+def kindOf (mode : Nat) : Option Nat := if 1 ≤ mode ∧ mode ≤ 4 then some (mode - 1) else none
+
+/-- capacity row (ISO/IEC 23941 Tables 3, 8): the regenerated table (no independent source, DESIGN.md 2.6) -/
+def row (v l : Nat) : Option Gen.GCap := (Gen.RMQR.capacityTable[v]?.getD [])[l]?
+
+/-- character count indicator width of a mode in a version -/
+def countBits (kind : Nat) (c : Gen.GCap) : Nat := c.bitLength[kind + 1]?.getD 0
+
+def segBits (s : Segment) (c : Gen.GCap) : Nat :=
+  match kindOf s.mode with
+  | some k => 3 + countBits k c + bodyBits k (count k s.data)
+  | none => 0
+
+/-- rMQR has no mask choice: the description's mask field is 0 -/
+structure Valid (q : QRCode) : Prop where
+  version : 0 ≤ q.version ∧ q.version ≤ 31
+  level : 0 ≤ q.level ∧ q.level ≤ 1
+  mask : q.mask = 0
+  segments : ∀ c, row q.version.toNat q.level.toNat = some c → ∀ s ∈ q.segments, ∃ k, kindOf s.mode = some k ∧
+    ValidData k s.data ∧ count k s.data < 2 ^ countBits k c
+  fits : ∀ c, row q.version.toNat q.level.toNat = some c →
+    (q.segments.map fun s => segBits s c).sum ≤ 8 * c.data
+
+end RMQR
 
 /-- C01's extra hypothesis: no empty segment -/
 def NonEmptySegments (q : QRCode) : Prop := ∀ s ∈ q.segments, s.data ≠ []
